@@ -9,6 +9,10 @@ From MV Require Import Inv.WildSrcProofs.
 From MV Require Import Gen.FilterSrc.
 From MV Require Import Inv.FilterSrcProofs.
 From MV Require Import Inv.FilterSrcGlue.
+From MV Require Import Inv.InvLinkPrims.
+From MV Require Import Gen.InvLinkSrc.
+From MV Require Import Inv.InvLinkSrcProofs.
+From MV Require Import Inv.InvLinkGlue.
 Import ListNotations.
 
 (* '*' any run of characters, '\*' a literal star, every other character only itself:
@@ -105,6 +109,32 @@ Theorem C19_inv_link_render : forall explicit ms,
   end.
 Proof. exact inv_link_render. Qed.
 Print Assumptions C19_inv_link_render.
+
+(* the same for render_link_inventory as regenerated from base.py on every run (Gen/InvLinkSrc.v, translator
+   gen/c19_link.py, refinement proof Inv/InvLinkSrcProofs.v), for every behaviour of the two oracles
+   (markdown-it's normalizeLinkText, urllib's urlparse reduced to path and fragment) and every match function:
+   which warning kinds are emitted and the refuri of the reference *)
+Theorem C19_inv_link_render_src : forall normalize_link_text urlparse get_matches token up,
+  urlparse (link_href normalize_link_text token) = Some up ->
+  let '(invs, domains, otypes) := path_filters (up_path up) in
+  let ms := get_matches invs domains otypes (Some (up_fragment up)) in
+  let res := render_link_inventory_src normalize_link_text urlparse get_matches token in
+  match ms with
+  | [] => map fst (fst res) = [W_iref_missing] /\ snd res = None
+  | m :: rest =>
+      map fst (fst res) = (match rest with [] => [] | _ => [W_iref_ambiguous] end) /\
+      exists n, snd res = Some n /\ n_refuri n = Some (joined (m_base m) (m_loc m))
+  end.
+Proof. exact inv_link_render_src. Qed.
+Print Assumptions C19_inv_link_render_src.
+
+(* the lazily loaded inventories are loaded once per document: a second lookup filters the same set *)
+Theorem C19_inventories_loaded_once : forall fetch cache cfg ws qi qd qo qt ms invs ws',
+  gim_model fetch cache cfg ws qi qd qo qt = (ms, invs, ws') ->
+  forall ws2 qi2 qd2 qo2 qt2,
+    gim_model fetch (Some invs) cfg ws2 qi2 qd2 qo2 qt2 = (filter_inventories invs qi2 qd2 qo2 qt2, invs, ws2).
+Proof. exact gim_cached. Qed.
+Print Assumptions C19_inventories_loaded_once.
 
 (* the matcher as it was before the re.DOTALL repair does not meet the documented semantics *)
 Theorem C19_without_dotall_refuted :
